@@ -137,7 +137,10 @@ def register(claim, na):
         "get_distribution are explored by exhaustive case split of symbolic counts 0..3. Large histograms (257 and 4097 distinct outcomes of 9- and "
         "13-qubit registers, every count symbolic; thorough: 4096 / 8191) are one linear query each after the shared denominator is cleared; registers of "
         "9-17 qubits with operators on qubit subsets beyond index 8; parity tallies of get_parities_from_measurements with a SYMBOLIC multiplicity of "
-        "every outcome (w<=3 all outcomes, a 10-qubit subset): [even, odd] per term and [equal, unequal] per pair are the exact sums of multiplicities.",
+        "every outcome (w<=3 all outcomes, a 10-qubit subset): [even, odd] per term and [equal, unequal] per pair are the exact sums of multiplicities. "
+        "The marked qubits arrive as every kind of Iterable[int] (list, tuple, frozenset, dict keys, range, and one-shot iterator / generator / map / reversed), counts still symbolic. "
+        "Histories: query, change the shot list without growing it (entry overwritten, same-length replacement, shortening, caller-side edit), query again. "
+        "Ground: parity tallies on shots whose bits are bool / np.bool_ / np.int8 / np.uint8 / np.int64 (found and fixed F18: unsigned bits wrapped).",
         "Exact-real model of floats with 1e-9 tolerance where the library divides concrete counts in floats; numpy proxied to object arrays inside "
         "measurements.py / parities.py (listed in evidence); shot lists are concrete (len() needs an int) except in the parity instances, where "
         "collections.Counter(measurements) is replaced by its contract on an opaque symbolic multiset (any other use of the list makes the instance inconclusive); "
